@@ -245,6 +245,19 @@ impl Unifiable {
                     }
                 }
 
+                // If the other term is a variable whose chain of bindings
+                // ends at this variable, the two are already aliased.
+                // Binding this variable again would create a cycle.
+                let mut other_var = other;
+                while let Unifiable::LogicVar{id: other_id, name: _} = other_var {
+                    if *other_id == id { return Some(Rc::clone(ss)); }
+                    if *other_id >= length_src { break; }
+                    match &ss[*other_id] {
+                        Some(term) => { other_var = &*term; },
+                        None => { break; },
+                    }
+                }
+
                 let mut length_dst = length_src;
                 if id >= length_dst { length_dst = id + 1; }
 
